@@ -906,6 +906,39 @@ def test_init(pid):
 JQ = z3.Int('jq')
 
 
+def replay_test_init(obligation, model, meta):
+    """native run of the real TDS.test_init on kundur_full with the residual vector overwritten: all zero -> True; one entry
+    above tol -> False; one NaN entry (everything else zero) -> False"""
+    import contextlib
+    import io
+    import logging
+    import numpy as np
+    import andes
+    logging.getLogger('andes').setLevel(logging.CRITICAL)
+    ss = andes.load(andes.get_case('kundur/kundur_full.xlsx'), default_config=True, no_output=True)
+    ss.PFlow.run()
+    with contextlib.redirect_stdout(io.StringIO()):
+        ss.TDS.init()
+    tol = ss.TDS.config.tol
+    free = [i for i in range(ss.dae.n) if i not in set(np.ravel(ss.no_check_init).tolist())]
+    for label, (where, val), want in (('all residuals zero', (None, 0.0), True), ('one g entry = 10*tol', ('g', 10 * tol), False),
+                                      ('one f entry = -10*tol', ('f', -10 * tol), False), ('one g entry NaN', ('g', np.nan), False),
+                                      ('one f entry NaN', ('f', np.nan), False)):
+        ss.dae.f[:] = 0.0
+        ss.dae.g[:] = 0.0
+        if where == 'g':
+            ss.dae.g[3] = val
+        elif where == 'f':
+            ss.dae.f[free[0]] = val
+        with contextlib.redirect_stdout(io.StringIO()):
+            got = ss.TDS.test_init()
+        if bool(got) is not want or not isinstance(got, (bool, np.bool_)):
+            return {'confirmed': True, 'inputs': {'case': 'kundur_full', 'residuals': label, 'tol': tol},
+                    'observed': 'test_init() returned %r, expected %r' % (got, want),
+                    'native_cmd': 'TDS.test_init() after overwriting dae.f / dae.g'}
+    return {'confirmed': False, 'tried': 5}
+
+
 def tds_init(pid):
     """TDS.init: the power-flow solution is copied into the leading slots of x and y before the dynamic models are addressed;
     the time is reset; the init test result is recorded; an already initialised TDS is left alone."""
